@@ -216,19 +216,16 @@ class RainfallClimateNetwork(ClimateNetwork):
         :return: A bool array with False for every value in the rainfall
                  data, which are zero or outside the top_event Interval.
         """
-        rainfall_copy = rainfall.copy()
-
         m = len(rainfall) * len(rainfall.T)
 
-        onelist = rainfall.reshape(m)
-
-        onelist = onelist[onelist.sort()][0]
+        #  (sorted copy: reshape gives a view of a contiguous array, and
+        #  sorting that in place would sort the caller's data)
+        onelist = rainfall.reshape(m).copy()
+        onelist.sort()
 
         downlimit = m * event_threshold[0] // 1
 
         uplimit = m * event_threshold[1] // 1
-
-        rainfall = rainfall_copy
 
         down_mask = rainfall >= onelist[downlimit]
 
